@@ -142,10 +142,11 @@ def run(ctx):
                 {b for (b, k, _) in ret_writes(f)}, require_fail_err=False)
     f = ctx.anchor(CORE + "round1::preprocess")
     if f:
-        lr = loop_report(P, f)
-        dr = [bb for (bb, t, ci) in f.calls() if ci and ci.get("name") == "new" and ci.get("self_adt", "").endswith("SigningNonces")]
-        ctx.check(len(lr) == 1 and len(dr) == 1 and dr[0] in lr[0]["body"], "DRAW-item", f.key, "pair-drawn-per-iteration",
-                  "preprocess must draw a fresh nonce pair inside the loop (a batch that draws once and clones reuses "
+        v = FnView.get(P, f)
+        ps = paired_sequences(P, f, v, v.cx.local(0))
+        fb = [s_ for s_ in subterms(ps["first"]) if s_[0] == "op" and s_[1] == "fill_bytes"] if ps else []
+        ctx.check(bool(fb) and all(site_is_per_item(f, ps["ctx"], s_[3]) for s_ in fb), "DRAW-item", f.key, "pair-drawn-per-iteration",
+                  "preprocess must draw a fresh nonce pair per item (a batch that draws once and clones reuses "
                   "nonces)", f.loc)
     # batch loop: decided under C19 as well; repeat here for the property's own evidence
     f = ctx.anchor(CORE + "batch::Verifier::<C>::verify")
